@@ -1032,6 +1032,11 @@ def pomo_cases(draw, tier="quick"):
     if k:
         c["more"] = [dict(B=draw(st.integers(1, 6)), phase=draw(st.sampled_from(["val", "test", "train", "val"])),
                           dseed=draw(SEED), tseed=draw(SEED)) for _ in range(k)]
+        # ... also with instances of ANOTHER size than the first batch (several validation sets of different sizes,
+        # generalisation tests): tsp / cvrp take every size from the data, and a default num_starts must follow it
+        if c["env"] in ("tsp", "cvrp") and draw(st.booleans()):
+            for m_ in c["more"]:
+                m_["n"] = draw(st.integers(4, 10))
     return c
 
 
@@ -1106,7 +1111,12 @@ def _pomo_eval_step(case, ctx, model, env, log, stp, idx):
     fai = case.get("fai", True)
     na_eff = na if na > 1 else 1  # num_augment <= 1: no augmentation, one copy
     torch.manual_seed(stp["dseed"])
-    td0 = env.generator(B)
+    if stp.get("n") is not None and stp["n"] != n:
+        n = stp["n"]  # this batch holds instances of another size than the model's env was configured for
+        td0 = _sized_env(name, n).generator(B)
+        ctx.event("history|same_object_other_instance_size")
+    else:
+        td0 = env.generator(B)
     insts = _instances(name, td0)
     del log[:]
     model.eval()
@@ -1227,11 +1237,11 @@ def preimport():
 
 SUBS = [
     Sub("transforms", exec_aug, strategy=lambda tier: aug_cases(tier),
-        budget={"quick": 15008, "thorough": 100000}, shards=16),
+        budget={"quick": 30016, "thorough": 100000}, shards=16),
     Sub("evaluation", exec_eval, strategy=lambda tier: eval_cases(tier),
-        budget={"quick": 800, "thorough": 4800}, shards=16, shrink=False, minimize=_min_eval, weight=3.0),
+        budget={"quick": 1600, "thorough": 4800}, shards=16, shrink=False, minimize=_min_eval, weight=3.0),
     Sub("select_best", exec_sel, strategy=lambda tier: sel_cases(tier),
-        budget={"quick": 320, "thorough": 2400}, shards=8, shrink=False, minimize=_min_sel, weight=1.5),
+        budget={"quick": 640, "thorough": 2400}, shards=8, shrink=False, minimize=_min_sel, weight=1.5),
     Sub("pomo_step", exec_pomo, strategy=lambda tier: pomo_cases(tier),
-        budget={"quick": 256, "thorough": 1600}, shards=8, shrink=False, minimize=_min_pomo, weight=2.0),
+        budget={"quick": 512, "thorough": 1600}, shards=8, shrink=False, minimize=_min_pomo, weight=2.0),
 ]
